@@ -22,6 +22,7 @@ import json
 import os
 import random
 import re
+import signal
 import subprocess
 import sys
 import time
@@ -294,6 +295,10 @@ class Driver:
         return self.batch([req])[0]
 
 
+class CaseTimeout(BaseException):
+    """raised by the per-case watchdog (BaseException: not swallowed by the `except Exception` of the harnesses)"""
+
+
 class Timeout(Exception):
     pass
 
@@ -404,9 +409,25 @@ class PropertyCheck:
     def _process_batch(self, batch, oracle_only):
         results = []
         for case in batch:
-            with warnings.catch_warnings():
-                warnings.simplefilter('ignore')
-                impl = self.run_impl(case)
+            # watchdog: a call under test that does not come back (an endless loop) is a failing input, not a hung check
+            limit = 900.0 if self.tier == 'quick' else 2400.0
+
+            def _alarm(signum, frame):
+                raise CaseTimeout()
+            old_handler = signal.signal(signal.SIGALRM, _alarm)
+            signal.setitimer(signal.ITIMER_REAL, limit)
+            try:
+                with warnings.catch_warnings():
+                    warnings.simplefilter('ignore')
+                    impl = self.run_impl(case)
+            except CaseTimeout:
+                self.evaluations += 1
+                self.violations.append((case, 'the call under test did not return within %d s on this input' % int(limit), 'oracle'))
+                results.append({'case_timeout': True})
+                continue
+            finally:
+                signal.setitimer(signal.ITIMER_REAL, 0)
+                signal.signal(signal.SIGALRM, old_handler)
             self.evaluations += 1
             k = self.nontrivial_key(case, impl)
             if k is not None:
@@ -427,6 +448,8 @@ class PropertyCheck:
             return
         reqs, idx = [], []
         for i, (case, impl) in enumerate(zip(batch, results)):
+            if impl.get('case_timeout') if isinstance(impl, dict) else False:
+                continue
             r = self.model_request(case, impl)
             if r is not None:
                 if isinstance(r, list):          # several model calls for one case
@@ -464,10 +487,22 @@ class PropertyCheck:
         return cur
 
     def oracle_fails(self, case):
-        with warnings.catch_warnings():
-            warnings.simplefilter('ignore')
-            impl = self.run_impl(case)
-            return self.oracle(case, impl)
+        limit = 900.0 if self.tier == 'quick' else 2400.0
+
+        def _alarm(signum, frame):
+            raise CaseTimeout()
+        old_handler = signal.signal(signal.SIGALRM, _alarm)
+        signal.setitimer(signal.ITIMER_REAL, limit)
+        try:
+            with warnings.catch_warnings():
+                warnings.simplefilter('ignore')
+                impl = self.run_impl(case)
+                return self.oracle(case, impl)
+        except CaseTimeout:
+            return 'the call under test did not return within %d s on this input' % int(limit)
+        finally:
+            signal.setitimer(signal.ITIMER_REAL, 0)
+            signal.signal(signal.SIGALRM, old_handler)
 
     def known_findings(self):
         try:
@@ -534,8 +569,11 @@ class PropertyCheck:
                 def still_new(c):
                     m = self.oracle_fails(c)
                     return bool(m) and self.match_known(c, m) is None
-                small = self.shrink(case, still_new)
-                smsg = self.oracle_fails(small) or msg
+                if 'did not return within' in msg:
+                    small, smsg = case, msg          # (not shrunk: every step could take the full time limit again)
+                else:
+                    small = self.shrink(case, still_new)
+                    smsg = self.oracle_fails(small) or msg
             except Exception:
                 small, smsg = case, msg
             known = self.match_known(small, smsg)
